@@ -282,16 +282,19 @@ theorem wrowsOf_rows (m : Model) (P : Params) (env : Env) (hR : RowsSumToOne P) 
 
 /-! ### two specifications that differ in utility only: `u' = a·u + b` -/
 
-structure AffineUtility (m m' : Model) (P : Params) (a b : Rat) : Prop where
+/-- two specifications that differ in the function `utility` only -/
+structure SameButUtility (m m' : Model) (P : Params) : Prop where
   periods : m'.nPeriods = m.nPeriods
   grp : groups m' = groups m
   finfo : functionInfo m' = functionInfo m
   /-- every function other than utility evaluates alike -/
   other : ∀ env n, n ≠ "utility" → callF m' P m'.fuel env n = callF m P m.fuel env n
   funcs : ∀ n, n ≠ "utility" → m'.func? n = m.func? n
-  util : ∀ env, utilOf m' P env = (utilOf m P env).map fun u => a * u + b
   /-- no filter, constraint or transition is called `utility` (classification is by suffix / prefix) -/
   names : ∀ fi ∈ functionInfo m, (fi.isConstraint = true ∨ fi.isFilter = true ∨ fi.isNext = true) → fi.name ≠ "utility"
+
+structure AffineUtility (m m' : Model) (P : Params) (a b : Rat) : Prop extends SameButUtility m m' P where
+  util : ∀ env, utilOf m' P env = (utilOf m P env).map fun u => a * u + b
 
 theorem allTrue_congr_names (m m' : Model) (P : Params) (env : Env) (names : List Name)
     (h : ∀ n ∈ names, callF m' P m'.fuel env n = callF m P m.fuel env n) :
@@ -303,7 +306,7 @@ theorem allTrue_congr_names (m m' : Model) (P : Params) (env : Env) (names : Lis
 
 variable {m m' : Model} {P : Params} {a b : Rat}
 
-theorem AffineUtility.constraints (h : AffineUtility m m' P a b) (env : Env) :
+theorem SameButUtility.constraints (h : SameButUtility m m' P) (env : Env) :
     allTrue m' P env (constraintNames m') = allTrue m P env (constraintNames m) := by
   unfold constraintNames
   rw [h.finfo]
@@ -314,7 +317,7 @@ theorem AffineUtility.constraints (h : AffineUtility m m' P a b) (env : Env) :
   rw [List.mem_filter] at hfi
   exact h.other env _ (h.names fi hfi.1 (Or.inl hfi.2))
 
-theorem AffineUtility.filters (h : AffineUtility m m' P a b) (env : Env) :
+theorem SameButUtility.filters (h : SameButUtility m m' P) (env : Env) :
     allTrue m' P env (((functionInfo m').filter (·.isFilter)).map (·.name))
       = allTrue m P env (((functionInfo m).filter (·.isFilter)).map (·.name)) := by
   rw [h.finfo]
@@ -325,7 +328,7 @@ theorem AffineUtility.filters (h : AffineUtility m m' P a b) (env : Env) :
   rw [List.mem_filter] at hfi
   exact h.other env _ (h.names fi hfi.1 (Or.inr (Or.inl hfi.2)))
 
-theorem AffineUtility.det (h : AffineUtility m m' P a b) (env : Env) : detOf m' P env = detOf m P env := by
+theorem SameButUtility.det (h : SameButUtility m m' P) (env : Env) : detOf m' P env = detOf m P env := by
   unfold detOf
   rw [h.finfo]
   apply mapM_congr_option
@@ -333,7 +336,7 @@ theorem AffineUtility.det (h : AffineUtility m m' P a b) (env : Env) : detOf m' 
   rw [List.mem_filter, List.mem_filter] at hfi
   rw [h.other env _ (h.names fi hfi.1.1 (Or.inr (Or.inr hfi.1.2)))]
 
-theorem AffineUtility.wrows (h : AffineUtility m m' P a b) (env : Env) : wrowsOf m' P env = wrowsOf m P env := by
+theorem SameButUtility.wrows (h : SameButUtility m m' P) (env : Env) : wrowsOf m' P env = wrowsOf m P env := by
   unfold wrowsOf
   rw [h.finfo]
   apply mapM_congr_option
@@ -343,7 +346,7 @@ theorem AffineUtility.wrows (h : AffineUtility m m' P a b) (env : Env) : wrowsOf
   rw [List.mem_filter, List.mem_filter] at hfi
   rw [h.funcs _ (h.names fi hfi.1.1 (Or.inr (Or.inr hfi.1.2)))]
 
-theorem AffineUtility.mkSpace (h : AffineUtility m m' P a b) (g : Groups) (t : Nat) :
+theorem SameButUtility.mkSpace (h : SameButUtility m m' P) (g : Groups) (t : Nat) :
     mkSpace m' P g t = mkSpace m P g t := by
   unfold Lcm.mkSpace
   have : (fun (s c : List (Name × Rat)) =>
